@@ -1029,6 +1029,15 @@ class NumAnalysis:
             self.oblige(b, "call", "split_at:mid<=len", hi <= 0, "mid %s <= len %s" % (fmt_itv(m), fmt_itv(a)))
             self.kill_tree(st, dpl[0], dpl[1])
             return
+        if re.match(r"^core::slice::<impl \[T\]>::is_empty$", callee) and len(args) == 1 and dty == "bool":
+            self.kill_tree(st, dpl[0], dpl[1])
+            pj = args[0].get("mv") or args[0].get("cp")
+            lv = len_var(mk_place(pj)) if pj is not None else None
+            dv = place_var(dpl)
+            if lv is not None and dv is not None:
+                st.z.set_interval(lv, max(0, st.z.lo(lv)), st.z.hi(lv))
+                st.bools[dv] = ("Eq", lv, ("c", 0))
+            return
         m_sl = re.match(r"^core::slice::<impl \[T\]>::(get|first|last)(?:_mut)?$", callee)
         if m_sl and args and discr_var(dpl) is not None:
             return self.slice_option_call(st, b, c, m_sl.group(1), args, dpl)
